@@ -45,11 +45,13 @@ AfterAdoptNative(oid, ouid, owners) ==
       THEN [ i \in DOMAIN d |-> IF RefersTo(d[i], oid, ouid) THEN [ d[i] EXCEPT !.ctrl = TRUE ] ELSE d[i] ]
       ELSE Append(d, [ id |-> oid, uid |-> ouid, ctrl |-> TRUE ])
 
+\* boxcutter ownerhandling remove(): the first matching entry is overwritten by the LAST entry, the list shortened by one
 RemoveOwnerL(oid, ouid, owners) ==
     LET idx == { i \in DOMAIN owners : RefersTo(owners[i], oid, ouid) } IN
     IF idx = {} THEN owners
-    ELSE LET f == CHOOSE i \in idx : \A j \in idx : i <= j IN
-         [ i \in 1..(Len(owners) - 1) |-> IF i < f THEN owners[i] ELSE owners[i + 1] ]
+    ELSE LET f == CHOOSE i \in idx : \A j \in idx : i <= j
+             n == Len(owners) IN
+         [ i \in 1..(n - 1) |-> IF i = f THEN owners[n] ELSE owners[i] ]
 
 (* ---- adoption ladder: controllers/phase_reconciler.go defaultAdoptionChecker.Check ---- *)
 
